@@ -15,7 +15,7 @@
 (* Part L (receive loop): two-state machine alive / dead over datagram classes.     *)
 (* Survival and "one answer per request" do not depend on the size or content of    *)
 (* earlier datagrams.  A datagram larger than the receive buffer is seen by the     *)
-(* responder as its first bufsize bytes (classes oversized*); "deep" / "oversized_  *)
+(* responder as its first bufsize bytes (oversized.. classes); "deep" / "oversized_ *)
 (* deep" are datagrams of hundreds to thousands of nested JSON arrays / objects,    *)
 (* which a recursive decoder refuses with an error that is not a syntax error.      *)
 EXTENDS Integers, Sequences, FiniteSets, FiniteSetsExt, SequencesExt, TLC, IOUtils
